@@ -43,7 +43,19 @@ pub enum Role {
 #[derive(Clone, Debug, Serialize, Deserialize)]
 pub enum Mode {
     Accounting { cfg: PoolCfg, dispatchers: Vec<Vec<Item>>, schedules: Vec<u64>, iters: usize, sched: Sched, stats_calls: usize },
-    Affinity { kind: PoolKind, seg: Seg, variants: Vec<(String, Seg, Framing)>, base_framing: Framing, must_differ_ok: bool },
+    Affinity {
+        kind: PoolKind,
+        seg: Seg,
+        variants: Vec<(String, Seg, Framing)>,
+        base_framing: Framing,
+        must_differ_ok: bool,
+        /// byte patch applied to the IP header of the base frame and of every variant: (offset from the start of the IP header, mask, value)
+        #[serde(default)]
+        all_patch: Option<(usize, u8, u8)>,
+        /// extra variants that are the base frame with one IP-header byte patched: (name, offset, mask, value)
+        #[serde(default)]
+        byte_variants: Vec<(String, usize, u8, u8)>,
+    },
 }
 
 #[derive(Clone, Debug, Serialize, Deserialize)]
@@ -406,7 +418,14 @@ impl Prop for C18 {
             }
             let base_framing = *r.pick(&[Framing::Ethernet, Framing::RawIp]);
             let variants = rewrite_variants(r, &seg, base_framing);
-            return Scn { mode: Mode::Affinity { kind, seg, variants, base_framing, must_differ_ok: true } };
+            // invalid-but-analysed headers: IPv4 header length below 5 words on every frame of the comparison
+            let all_patch = if !v6 && r.chance(1, 4) { Some((0usize, 0x0fu8, r.below(5) as u8)) } else { None };
+            // the IP version nibble is ignored by the analyzers under Ethernet framing (the ethertype decides)
+            let mut byte_variants = vec![];
+            if base_framing == Framing::Ethernet && all_patch.is_none() {
+                byte_variants.push(("ip_version_nibble".to_string(), 0usize, 0xf0u8, (*r.pick(&[0u8, 1, 5, 7, 15, if v6 { 4 } else { 6 }])) << 4));
+            }
+            return Scn { mode: Mode::Affinity { kind, seg, variants, base_framing, must_differ_ok: true, all_patch, byte_variants } };
         }
         let d = r.urange(1, 4);
         let workers = match r.below(6) {
@@ -454,13 +473,25 @@ impl Prop for C18 {
                 st.nontrivial = seen_q && seen_d;
                 Ok(())
             }
-            Mode::Affinity { kind, seg, variants, base_framing, .. } => {
-                let base = pkt::frame(seg, *base_framing);
+            Mode::Affinity { kind, seg, variants, base_framing, all_patch, byte_variants, .. } => {
+                let patch = |mut f: Vec<u8>, p: &Option<(usize, u8, u8)>| -> Vec<u8> {
+                    if let Some((off, mask, val)) = p {
+                        let i = crate::tap::ip_offset(&f) + off;
+                        if i < f.len() {
+                            f[i] = (f[i] & !mask) | (val & mask);
+                        }
+                    }
+                    f
+                };
+                let base = patch(pkt::frame(seg, *base_framing), all_patch);
+                if all_patch.is_some() {
+                    st.fault("ipv4_header_length_below_5");
+                }
                 st.evals = 0;
                 // swapped direction
                 let mut sw = seg.clone();
                 std::mem::swap(&mut sw.src, &mut sw.dst);
-                let swf = pkt::frame(&sw, *base_framing);
+                let swf = patch(pkt::frame(&sw, *base_framing), all_patch);
                 for w in 1..=64usize {
                     let b = pool::worker_of(*kind, &base, w);
                     st.evals += 1;
@@ -471,11 +502,24 @@ impl Prop for C18 {
                     }
                     st.ev_u64(b.map(|x| x as u64).unwrap_or(u64::MAX));
                     for (name, v, fr) in variants {
-                        let f = pkt::frame(v, *fr);
+                        // with the header length forced below 5, added option bytes would be read as the TCP header: a different packet, not a rewrite
+                        if all_patch.is_some() && name == "ip_options" {
+                            continue;
+                        }
+                        // a different framing moves the IP header; the patch follows it
+                        let f = patch(pkt::frame(v, *fr), all_patch);
                         let x = pool::worker_of(*kind, &f, w);
                         st.evals += 1;
                         if x != b {
                             return Err(Violation::new("affinity", format!("{}:{}", kind.name(), name), format!("worker for {}->{} changes from {:?} to {:?} (of {}) when only '{}' is rewritten", epstr(&seg.src), epstr(&seg.dst), b, x, w, name)));
+                        }
+                    }
+                    for (name, off, mask, val) in byte_variants {
+                        let f = patch(base.clone(), &Some((*off, *mask, *val)));
+                        let x = pool::worker_of(*kind, &f, w);
+                        st.evals += 1;
+                        if x != b {
+                            return Err(Violation::new("affinity", format!("{}:{}", kind.name(), name), format!("worker for {}->{} changes from {:?} to {:?} (of {}) when only '{}' is rewritten (the analyzers ignore it)", epstr(&seg.src), epstr(&seg.dst), b, x, w, name)));
                         }
                     }
                     if *kind == PoolKind::Http {
@@ -489,7 +533,7 @@ impl Prop for C18 {
                         let mut o = seg.clone();
                         o.src.port = o.src.port.wrapping_add(1);
                         o.dst.port = o.dst.port.wrapping_add(7);
-                        let x = pool::worker_of(*kind, &pkt::frame(&o, *base_framing), w);
+                        let x = pool::worker_of(*kind, &patch(pkt::frame(&o, *base_framing), all_patch), w);
                         if x != b {
                             return Err(Violation::new("affinity", "tcp-pool:same-source-address", format!("same source address, other ports: workers {:?} and {:?} (of {})", b, x, w)));
                         }
@@ -535,11 +579,14 @@ impl Prop for C18 {
                     out.push(Scn { mode: Mode::Accounting { cfg: c, dispatchers: dispatchers.clone(), schedules: schedules.clone(), iters, sched: *sched, stats_calls: *stats_calls } });
                 }
             }
-            Mode::Affinity { kind, seg, variants, base_framing, must_differ_ok } => {
+            Mode::Affinity { kind, seg, variants, base_framing, must_differ_ok, all_patch, byte_variants } => {
                 if variants.len() > 1 {
                     for v in variants {
-                        out.push(Scn { mode: Mode::Affinity { kind: *kind, seg: seg.clone(), variants: vec![v.clone()], base_framing: *base_framing, must_differ_ok: *must_differ_ok } });
+                        out.push(Scn { mode: Mode::Affinity { kind: *kind, seg: seg.clone(), variants: vec![v.clone()], base_framing: *base_framing, must_differ_ok: *must_differ_ok, all_patch: *all_patch, byte_variants: vec![] } });
                     }
+                }
+                if !variants.is_empty() && !byte_variants.is_empty() {
+                    out.push(Scn { mode: Mode::Affinity { kind: *kind, seg: seg.clone(), variants: vec![], base_framing: *base_framing, must_differ_ok: *must_differ_ok, all_patch: *all_patch, byte_variants: byte_variants.clone() } });
                 }
             }
         }
